@@ -33,8 +33,18 @@ def target(kind):
         def like(x):
             return -np.inf if x[0] < -2.0 else -0.5 * float(np.sum((x - 0.7) ** 2)) / 0.5
         return 2, (lambda u: 8.0 * u - 4.0), like
+    if kind == "weak":      # weakly informative: beta goes 0 -> 1 in one step
+        return 1, (lambda u: 5.0 * u - 2.5), (lambda x: -0.5 * float(np.sum(x ** 2)))
+    if kind == "wide":      # unit Gaussian under U(-10,10)^2: a tight volume-variation target holds beta
+        return 2, (lambda u: 20.0 * u - 10.0), (lambda x: -0.5 * float(np.sum(x ** 2)) - np.log(2 * np.pi))
     return 2, (lambda u: 8.0 * u - 4.0), (lambda x: -0.5 * float(np.sum((x - 0.4) ** 2)) / 0.6)
 
+
+# cells of the "same temperature" oracle (first in `search`): the two families in which the reweighter takes its rarely used exits
+TEMP_CELLS = [dict(kernel="rwm", resample="mult", clustering=False, target="weak", volume_variation=None, periodic=None, n=32, ess_ratio=2.0),
+              dict(kernel="tpcn", resample="syst", clustering=False, target="wide", volume_variation=0.05, periodic=None, n=32, ess_ratio=2.0),
+              dict(kernel="tpcn", resample="mult", clustering=True, target="plain", volume_variation=None, periodic=None, n=24, ess_ratio=1.2),
+              dict(kernel="rwm", resample="syst", clustering=False, target="wide", volume_variation=0.04, periodic=None, n=32, ess_ratio=1.7)]
 
 CELLS = [dict(kernel=k, resample=r, clustering=c, target=t, volume_variation=v, periodic=p)
          for (k, r, c, t, v, p) in [("tpcn", "mult", True, "bimodal", None, None), ("rwm", "syst", False, "plain", None, None),
@@ -53,6 +63,89 @@ def run_cell(cell, seed):
                     periodic=cell["periodic"], n_steps=1, n_max_steps=3, random_state=seed)
         s.run(n_total=2 * n, progress=False)
     return s, like
+
+
+def check_same_temperature(cell, seed, n_total_factor=4):
+    """C01 / C05 / C02 'one temperature per iteration' on the REAL code, model-free: at the moment `Trainer.run` and
+    `Resampler.run` are called, the state's (beta, logz, ess) and the weight vector they receive must ALL be the pool's quantities
+    at that one beta — recomputed here from the stored history with independent code: w = normalised mixture-importance weights
+    at beta, logz = log mean unnormalised weight at beta, ess = 1 / sum w^2.  Checked on EVERY iteration of a complete run,
+    including the iteration where beta reaches 1 in one jump and the iterations where the dynamic mode holds beta."""
+    from scipy.special import logsumexp
+    from tempest import Sampler
+    d, prior, like = target(cell["target"])
+    n = cell.get("n", 24)
+    out, seen = [], {"jump": 0, "hold": 0, "its": 0}
+    with _quiet(), warnings.catch_warnings():
+        warnings.simplefilter("ignore")
+        s = Sampler(prior, like, d, n_particles=n, clustering=cell["clustering"], sample=cell["kernel"], resample=cell["resample"],
+                    volume_variation=cell["volume_variation"], ess_ratio=cell.get("ess_ratio", 2.0), periodic=cell["periodic"],
+                    n_steps=1, n_max_steps=3, random_state=seed)
+        core, st = s._core, s.state
+        prev = {"beta": None}
+
+        def observe(who, w):
+            T = st.get_history_length()
+            if T == 0:
+                return
+            beta = float(st.get_current("beta"))
+            betas = [float(st.get_history("beta", t)) for t in range(T)]
+            logzs = [float(st.get_history("logz", t)) for t in range(T)]
+            Ls = [np.array(st.get_history("logl", t), dtype=float) for t in range(T)]
+            lw = mis_logw(betas, logzs, Ls, beta)
+            ref_w = np.exp(lw - logsumexp(lw))
+            ref_z = float(logsumexp(lw) - np.log(len(lw)))
+            w = np.asarray(w, dtype=float)
+            it = int(st.get_current("iter"))
+            if len(w) != len(ref_w) or not np.all(np.abs(w / np.sum(w) - ref_w) <= 1e-9 * (ref_w + np.max(ref_w))):
+                bad = int(np.argmax(np.abs(w / np.sum(w) - ref_w))) if len(w) == len(ref_w) else -1
+                out.append(f"iteration {it}: {who} received weights that are not the pool's weights at the recorded beta = {beta!r} "
+                           f"(previous beta {betas[-1]!r}; particle {bad}: {float(w[bad] / np.sum(w)) if bad >= 0 else None!r} vs "
+                           f"{float(ref_w[bad]) if bad >= 0 else None!r})")
+            if who == "Resampler.run":
+                z = float(st.get_current("logz"))
+                e = float(st.get_current("ess"))
+                if not _rel(z, ref_z):
+                    out.append(f"iteration {it}: logz written by the reweighter {z!r} is not the evidence estimate at the recorded "
+                               f"beta = {beta!r} over the history available then ({ref_z!r})")
+                if abs(e - 1.0 / float(np.sum(ref_w ** 2))) > 1e-7 * (1.0 + e):
+                    out.append(f"iteration {it}: recorded ESS {e!r} is not the ESS of the pool's weights at beta = {beta!r} "
+                               f"({1.0 / float(np.sum(ref_w ** 2))!r})")
+                seen["its"] += 1
+                seen["jump"] += int(betas[-1] == 0.0 and beta == 1.0)
+                seen["hold"] += int(cell["volume_variation"] is not None and beta == betas[-1] and beta < 1.0)
+        o_tr, o_rs = core.trainer.run, core.resampler.run
+        core.trainer.run = lambda w: (observe("Trainer.run", np.array(w, dtype=float)), o_tr(w))[1]
+        core.resampler.run = lambda w: (observe("Resampler.run", np.array(w, dtype=float)), o_rs(w))[1]
+        try:
+            s.run(n_total=n_total_factor * n, progress=False)
+        finally:
+            del core.trainer.run, core.resampler.run
+    return out[:5], seen
+
+
+def suite_same_temperature(tier, prop):
+    """the oracle above as a suite (real code against an independent recomputation from its own history; no Lean model involved):
+    one case per iteration of complete real runs over TEMP_CELLS"""
+    c = common.Corr("same-temperature-real-runs", "exact oracle on the real code (1e-9 on recomputed exp/log quantities)")
+    reps = 1 if tier == "quick" else 6
+    for r in range(reps):
+        for k, cell in enumerate(TEMP_CELLS):
+            seed = (common.seed() * 7907 + 1000 * r + 31 * k + (11 if prop == "C01" else 12)) % (2 ** 31 - 1)
+            try:
+                probs, seen = check_same_temperature(cell, seed)
+            except np.linalg.LinAlgError:
+                c.count("aborted_singular_mode(F24)")
+                continue
+            for _ in range(max(seen["its"], 1)):
+                c.case((k, seed, c.evaluations), True)
+            c.count("iterations", seen["its"])
+            c.count("iterations_dynamic_mode_holding_beta", seen["hold"])
+            c.count("mode_vv" if cell["volume_variation"] is not None else "mode_ess")
+            c.count("target_" + cell["target"])
+            if probs:
+                c.disagree(input={"cell": cell, "seed": seed}, impl=probs[0], model="pool quantities at the recorded beta (C01_X_same_temperature)")
+    return c
 
 
 def mis_logw(beta_t, logz_t, logl_batches, beta):
@@ -197,6 +290,22 @@ def check_streams(cell, seed):
 def search(which, tier):
     """failing inputs of the contract on the real code (empty on a correct tree)"""
     found = []
+    # 0. one temperature per iteration (weights handed on, logz, ESS) — the rarely taken exits of the reweighter first
+    for k, cell in enumerate(TEMP_CELLS):
+        seed = (common.seed() * 104729 + 17 * k + 5) % (2 ** 31 - 1)
+        try:
+            probs, _seen = check_same_temperature(cell, seed)
+        except np.linalg.LinAlgError:
+            continue
+        except Exception as e:  # noqa
+            probs = [f"raised {type(e).__name__}: {e}"]
+        want = "weights" if which == "posterior" else "logz"
+        mine = [p_ for p_ in probs if want in p_ or "raised" in p_] or probs
+        if mine:
+            found.append({"kind": "same-temperature", "cell": cell, "seed": seed, "what": mine[0], "all": probs[:5],
+                          "replay": {"contract": "temperature", "cell": cell, "seed": seed}})
+    if found:
+        return found
     cells = CELLS if tier == "thorough" else CELLS[:4]
     for k, cell in enumerate(cells):
         seed = (common.seed() * 7919 + 101 * k + 13) % (2 ** 31 - 1)
@@ -215,6 +324,9 @@ def search(which, tier):
 
 
 def replay(which, cell, seed):
+    if which == "temperature":
+        probs, _ = check_same_temperature(cell, seed)
+        return {"fails": bool(probs), "detail": probs[:5]}
     probs = (check_posterior if which == "posterior" else check_evidence)(cell, seed)
     if which == "evidence":
         probs = probs + check_streams(cell, seed)
